@@ -801,14 +801,34 @@ func (ex *Exec) doBuiltin(fr *Frame, st *State, b *ssa.Builtin, cc *ssa.CallComm
 	case "copy":
 		dst := args[0]
 		if sl, ok := types.Unalias(dst.T).Underlying().(*types.Slice); ok {
+			src := args[1]
+			if _, isSl := types.Unalias(src.T).Underlying().(*types.Slice); !isSl {
+				// copy(dst, string): contents not modelled
+				for _, l := range Layout(sl.Elem()) {
+					name := elemHeapName(sl.Elem(), l.Path)
+					srt := ArrSort(SInt, ArrSort(SInt, l.Sort))
+					h := ex.heapGet(st, name, srt)
+					ex.heapSet(st, name, Store(h, dst.L[0], Fresh("copy", ArrSort(SInt, l.Sort))))
+				}
+				n := Fresh("ncopied", SInt)
+				ex.assume(st, And(Ge(n, Int(0)), Le(n, dst.L[2])))
+				return scalar(rt, n)
+			}
+			n := Ite(Lt(dst.L[2], src.L[2]), dst.L[2], src.L[2])
+			ex.boundN++
+			j := Bound(fmt.Sprintf("cj%d", ex.boundN), SInt)
 			for _, l := range Layout(sl.Elem()) {
 				name := elemHeapName(sl.Elem(), l.Path)
-				srt := ArrSort(SInt, ArrSort(SInt, l.Sort))
-				h := ex.heapGet(st, name, srt)
-				ex.heapSet(st, name, Store(h, dst.L[0], Fresh("copy", ArrSort(SInt, l.Sort))))
+				rowS := ArrSort(SInt, l.Sort)
+				h := ex.heapGet(st, name, ArrSort(SInt, rowS))
+				oldRow := Select(h, dst.L[0])
+				srcView := shiftRow(Select(h, src.L[0]), src.L[1])
+				nrow := Fresh("copyrow", rowS)
+				dstView := shiftRow(nrow, dst.L[1])
+				ex.assume(st, Forall([]*Term{j}, Implies(And(Ge(j, Int(0)), Lt(j, n)), Eq(Select(dstView, j), Select(srcView, j))), []*Term{Select(dstView, j)}, []*Term{Select(srcView, j)}))
+				ex.assume(st, Forall([]*Term{j}, Implies(Or(Lt(j, dst.L[1]), Ge(j, Add(dst.L[1], n))), Eq(Select(nrow, j), Select(oldRow, j))), []*Term{Select(nrow, j)}))
+				ex.heapSet(st, name, Store(h, dst.L[0], nrow))
 			}
-			n := Fresh("ncopied", SInt)
-			ex.assume(st, And(Ge(n, Int(0)), Le(n, dst.L[2])))
 			return scalar(rt, n)
 		}
 	case "min", "max":
@@ -892,7 +912,8 @@ func (ex *Exec) doAppend(st *State, s, xs Val, rt types.Type) Val {
 			row = Fresh("approw", rowS)
 			ex.boundN++
 			j := Bound(fmt.Sprintf("j%d", ex.boundN), SInt)
-			ex.assume(st, Forall([]*Term{j}, Implies(And(Ge(j, Int(0)), Lt(j, slen)), Eq(Select(row, j), Select(Select(h, sarr), Add(soff, j))))))
+			src := shiftRow(Select(h, sarr), soff)
+			ex.assume(st, Forall([]*Term{j}, Implies(And(Ge(j, Int(0)), Lt(j, slen)), Eq(Select(row, j), Select(src, j))), []*Term{Select(row, j)}, []*Term{Select(src, j)}))
 		}
 		if xlen.IsIntLit() && xlen.IntVal().Int64() <= 16 {
 			n := xlen.IntVal().Int64()
@@ -903,8 +924,10 @@ func (ex *Exec) doAppend(st *State, s, xs Val, rt types.Type) Val {
 			nrow := Fresh("approw", rowS)
 			ex.boundN++
 			j := Bound(fmt.Sprintf("j%d", ex.boundN), SInt)
-			ex.assume(st, Forall([]*Term{j}, Implies(And(Ge(j, Int(0)), Lt(j, slen)), Eq(Select(nrow, j), Select(row, j)))))
-			ex.assume(st, Forall([]*Term{j}, Implies(And(Ge(j, Int(0)), Lt(j, xlen)), Eq(Select(nrow, Add(slen, j)), Select(Select(h, xarr), Add(xoff, j))))))
+			ex.assume(st, Forall([]*Term{j}, Implies(And(Ge(j, Int(0)), Lt(j, slen)), Eq(Select(nrow, j), Select(row, j))), []*Term{Select(nrow, j)}, []*Term{Select(row, j)}))
+			xsrc := shiftRow(Select(h, xarr), xoff)
+			tail := shiftRow(nrow, slen)
+			ex.assume(st, Forall([]*Term{j}, Implies(And(Ge(j, Int(0)), Lt(j, xlen)), Eq(Select(tail, j), Select(xsrc, j))), []*Term{Select(tail, j)}, []*Term{Select(xsrc, j)}))
 			row = nrow
 		}
 		ex.heapSet(st, name, Store(h, id, row))
